@@ -279,14 +279,14 @@ def trace_targets(trace):
 
 def canon_versions(w):
     from . import dsl
-    v = wire.dec(w) if w is not None else {}
+    v = dsl.dec_pyval(w) if w is not None else {}
     return json.dumps({k: dsl.canon(x) for k, x in v.items() if x is not None}, sort_keys=True)
 
 
 def changed_version_names(w_old, w_new):
     from . import dsl
-    a = wire.dec(w_old) if w_old is not None else {}
-    b = wire.dec(w_new) if w_new is not None else {}
+    a = dsl.dec_pyval(w_old) if w_old is not None else {}
+    b = dsl.dec_pyval(w_new) if w_new is not None else {}
     out = set()
     for k in set(a) | set(b):
         if json.dumps(dsl.canon(a.get(k)), sort_keys=True) != json.dumps(dsl.canon(b.get(k)), sort_keys=True):
